@@ -79,6 +79,19 @@ func (ex *Exec) valToElem(st *State, v Val, t types.Type) Term {
 	return Term{"eNil", SElem}
 }
 
+// argsElem encodes an argument list as a log element (right-nested pairs ending in eNil).
+func (ex *Exec) argsElem(st *State, vals []Val, ts []types.Type) Term {
+	r := Term{"eNil", SElem}
+	for i := len(vals) - 1; i >= 0; i-- {
+		var t types.Type
+		if i < len(ts) {
+			t = ts[i]
+		}
+		r = App(SElem, "eP", ex.valToElem(st, vals[i], t), r)
+	}
+	return r
+}
+
 // ---- maps -------------------------------------------------------------------------------------
 
 func keySort(t types.Type) string {
@@ -258,37 +271,41 @@ func (ex *Exec) rangeNext(st *State, fr *Frame, in *ssa.Next) {
 
 // ---- channels ----------------------------------------------------------------------------------
 
-func (ex *Exec) initChan(st *State, c, size Term) {
-	s := ex.heap(st, "chan#sent", ArrSort(SLog))
-	st.Heaps["chan#sent"] = Store(s, c, Term{"lnil", SLog})
-	r := ex.heap(st, "chan#recvd", ArrSort(SLog))
-	st.Heaps["chan#recvd"] = Store(r, c, Term{"lnil", SLog})
-	cl := ex.heap(st, "chan#closed", ArrSort(SBool))
-	st.Heaps["chan#closed"] = Store(cl, c, False)
-	cp := ex.heap(st, "chan#cap", ArrSort(SInt))
-	st.Heaps["chan#cap"] = Store(cp, c, size)
+func chanHeap(elem types.Type, what string) string { return "chan:" + typeKey(elem) + "#" + what }
+
+func (ex *Exec) initChan(st *State, c, size Term, elem types.Type) {
+	s := ex.heap(st, chanHeap(elem, "sent"), ArrSort(SLog))
+	st.Heaps[chanHeap(elem, "sent")] = Store(s, c, Term{"lnil", SLog})
+	r := ex.heap(st, chanHeap(elem, "recvd"), ArrSort(SLog))
+	st.Heaps[chanHeap(elem, "recvd")] = Store(r, c, Term{"lnil", SLog})
+	cl := ex.heap(st, chanHeap(elem, "closed"), ArrSort(SBool))
+	st.Heaps[chanHeap(elem, "closed")] = Store(cl, c, False)
+	cp := ex.heap(st, chanHeap(elem, "cap"), ArrSort(SInt))
+	st.Heaps[chanHeap(elem, "cap")] = Store(cp, c, size)
 }
 
 func (ex *Exec) chanSend(st *State, ch Term, v Val, t types.Type, instr ssa.Instruction, blocking bool) {
-	cl := ex.heap(st, "chan#closed", ArrSort(SBool))
+	elem := t
+	cl := ex.heap(st, chanHeap(elem, "closed"), ArrSort(SBool))
 	ex.safe(st, Not(Select(cl, ch)), instr, "send on closed channel")
-	s := ex.heap(st, "chan#sent", ArrSort(SLog))
-	st.Heaps["chan#sent"] = Store(s, ch, App(SLog, "lsnoc", Select(s, ch), ex.valToElem(st, v, t)))
-	ex.recordWrite("chan#sent", LHeap1, ch, ArrSort(SLog))
+	s := ex.heap(st, chanHeap(elem, "sent"), ArrSort(SLog))
+	st.Heaps[chanHeap(elem, "sent")] = Store(s, ch, App(SLog, "lsnoc", Select(s, ch), ex.valToElem(st, v, t)))
+	ex.recordWrite(chanHeap(elem, "sent"), LHeap1, ch, ArrSort(SLog))
 	if blocking {
 		ex.effect(st, "blocking-send", instr)
 	}
 }
 
 func (ex *Exec) chanRecv(st *State, ch Term, t types.Type, commaOk bool, instr ssa.Instruction) Val {
+	elem := t
 	v := ex.symbolic(st, "recv", t)
-	r := ex.heap(st, "chan#recvd", ArrSort(SLog))
+	r := ex.heap(st, chanHeap(elem, "recvd"), ArrSort(SLog))
 	okT := True
 	if commaOk {
 		okT = ex.D.Fresh("recv.ok", SBool)
 	}
-	st.Heaps["chan#recvd"] = Store(r, ch, Ite(okT, App(SLog, "lsnoc", Select(r, ch), ex.valToElem(st, v, t)), Select(r, ch)))
-	ex.recordWrite("chan#recvd", LHeap1, ch, ArrSort(SLog))
+	st.Heaps[chanHeap(elem, "recvd")] = Store(r, ch, Ite(okT, App(SLog, "lsnoc", Select(r, ch), ex.valToElem(st, v, t)), Select(r, ch)))
+	ex.recordWrite(chanHeap(elem, "recvd"), LHeap1, ch, ArrSort(SLog))
 	if instr != nil {
 		ex.effect(st, "blocking-recv", instr)
 	}
@@ -298,11 +315,11 @@ func (ex *Exec) chanRecv(st *State, ch Term, t types.Type, commaOk bool, instr s
 	return v
 }
 
-func (ex *Exec) chanClose(st *State, ch Term, instr ssa.Instruction) {
-	cl := ex.heap(st, "chan#closed", ArrSort(SBool))
+func (ex *Exec) chanClose(st *State, ch Term, instr ssa.Instruction, elem types.Type) {
+	cl := ex.heap(st, chanHeap(elem, "closed"), ArrSort(SBool))
 	ex.safe(st, And(Neq(ch, IntT(0)), Not(Select(cl, ch))), instr, "close of nil or closed channel")
-	st.Heaps["chan#closed"] = Store(cl, ch, True)
-	ex.recordWrite("chan#closed", LHeap1, ch, ArrSort(SBool))
+	st.Heaps[chanHeap(elem, "closed")] = Store(cl, ch, True)
+	ex.recordWrite(chanHeap(elem, "closed"), LHeap1, ch, ArrSort(SBool))
 }
 
 // effect records blocking operations met on a path (used by the nonblocking effect check).
